@@ -6,7 +6,7 @@ sly / re for a given input are NOT decided.
 """
 import ast
 
-from ..source import const_str,  AnalysisError, norm, dotted, walk_no_nested, enclosing_function, enclosing_class
+from ..source import raised_classes, const_str,  AnalysisError, norm, dotted, walk_no_nested, enclosing_function, enclosing_class
 from ..grammar import load_dialect, DIALECTS
 from ..pymodel import model_for
 from ..actions import ActionKinds
@@ -124,9 +124,10 @@ def check_closure(ctx):
         for n in walk_no_nested(fn):
             # explicit raises
             if isinstance(n, ast.Raise) and n.exc is not None:
-                cls = ((dotted(n.exc.func) if isinstance(n.exc, ast.Call) else dotted(n.exc)) or '?').split('.')[-1]
+                classes = raised_classes(n.exc, fn)
+                cls = '/'.join(sorted(classes))
                 nsites += 1
-                ok = cls in ('ParsingException', 'LexError') or (isinstance(n.exc, ast.Name) and n.exc.id in ('e',))
+                ok = classes <= {'ParsingException', 'LexError', '<reraise>'}
                 ctx.ob('C02.R8', f'{nm}:raise {cls}', ok,
                        f'{nm} raises {cls}: the parse path may only raise ParsingException (or the lexer\'s LexError)',
                        file=f, line=n.lineno)
